@@ -336,11 +336,19 @@ func c10Gen(c *core.Ctx) c10Case {
 	case 11:
 		return c10Case{Value: "NOERROR;PTR;" + pick([]string{"", ".", "bad..host", "-x.example", "bad_host."}), Expect: c10Invalid, Note: "bad PTR"}
 	case 12: // TXT
-		t := pick([]string{"hello", "hello world", "", "a;b;c", "v=spf1 -all", "x=1", strings.Repeat("a", 255), strings.Repeat("b", 256), strings.Repeat("c", 257), strings.Repeat("long text ", 120), strings.Repeat("d", 4000)})
+		t := pick([]string{"hello", "hello world", "", "a;b;c", "v=spf1 -all", "x=1", strings.Repeat("a", 255), strings.Repeat("b", 256), strings.Repeat("c", 257), strings.Repeat("long text ", 120), strings.Repeat("d", 4000),
+			// Text as copied from a zone file: backslash escapes (complete and cut
+			// short at the end of the value) and quotes are ordinary characters.
+			`a\12`, `\00`, `v=spf1 -all\03`, `a\`, `\\`, `a\1`, `a\123`, `\1234`, `a\b`, `tab\there`, `"quoted"`, `'single'`, `\"q\"`, `a\12b`, `\255`, `\256`, `\999`, `x\0`})
 		cs := c10Case{Value: "NOERROR;TXT;" + t, RR: dns.TypeTXT, Note: "TXT"}
 		if t != "" {
 			cs.Expect = c10Valid
 			cs.Check = func(x any) bool { s, ok := x.(string); return ok && s == t }
+			if strings.HasSuffix(t, `\`) {
+				// (a backslash at the very end has nothing to escape; what
+				// becomes of it is not determined by the grammar)
+				cs.Check = nil
+			}
 		}
 
 		return cs
@@ -517,6 +525,7 @@ func init() {
 		Level: "exploration",
 		Rule: "per case 48 values: grammar-generated around every keyword, all record type names of miekg/dns and all RCODE names in mixed case, 0..4 delimiters, field counts +-1 around each handler's arity, numeric bounds (-1, 0, 65535, 65536, +1, empty), labels of 1/63/64 characters, IPv4/IPv6/mapped/zoned/bracketed addresses, each also with 1..3 byte mutations, and pairs of values joined by ',dnsrewrite=' (the modifier written twice); " +
 			"SVCB parameters include generic keyN spellings and repeated keys, and values with two or more parameters are parsed 26 times; " +
+			"TXT values with complete and truncated zone-file escapes and quotes; " +
 			"every accepted value must satisfy the shape predicate of the RRValue contract, survive a consumer that type-asserts by record type, parse deterministically, and agree with the generator's expectation where the grammar determines it (valid => expected content, malformed => error); non-trivial = accepted value; distinct by value",
 		Assumptions: []string{
 			"expectations are only asserted for values whose validity the documented grammar decides; mutated values are judged by the shape predicate alone",
